@@ -131,3 +131,27 @@ CHECKS["C13"] = {
     "assumptions": ["timestamps come from one monotonic clock at the caller boundary", "porcupine is trusted as the linearizability checker (60 s timeout => inconclusive)"],
     "min": {"any": {"history_ops": 10000, "search_results_checked": 1000, "linearizable_histories": 4}},
 }
+
+CHECKS["C17"] = {
+    "pkg": "./c17", "run": "^TestC17$", "level": "exploration",
+    "technique": "runtime monitor on an in-process cluster of real servers: Dataset.SizeInfo on every node vs the sum of harness-known partition sizes, with injected PartitionInfo failures and hangs (gRPC interceptors)",
+    "level_text": "Monitor on real anndb.Server clusters in one process (real raft, real gRPC between nodes): seeded topologies of 1..4 nodes, 1..8 partitions with pairwise distinct sizes, replication 1..3; SizeInfo is called repeatedly on every node (all-local, one-remote, several-remote placements) and must equal the sums of the per-partition sizes; then every needed remote lookup is made to fail or hang and the call must fail.",
+    "level_note": "Topologies and completion orders are sampled (goroutine scheduling is not controlled beyond repetition); truth per partition is what a hosting node's PartitionInfo reports while quiescent.",
+    "shards": {"quick": 5, "thorough": 12},
+    "timeout": {"quick": 900, "thorough": 3400},
+    "rule": "case c = topology (nodes, partitions, replication) with distinct partition sizes; 5 SizeInfo calls per node plus 2 fault modes per node with remote partitions; non-trivial = >=2 partitions; distinct = digest of (topology, sizes, placement)",
+    "assumptions": ["in-process servers with accelerated raft ticks behave like separate processes for the data plane"],
+    "min": {"any": {"sizeinfo_calls_checked": 50}},
+}
+
+CHECKS["C09"] = {
+    "pkg": "./c09", "run": "^TestC09$", "level": "exploration",
+    "technique": "runtime monitor on an in-process cluster of real servers: Dataset.Search vs exact top-k of the harness copy, intercepted SearchPartitions RPCs attributed by unique query, injected delays / errors / node-down / short deadlines, and concurrent stress",
+    "level_text": "Monitor on real anndb.Server clusters in one process: seeded topologies (1..4 nodes, 1..8 partitions of <=20 insert-only items so that each partition's own answer is exact, replication 1..3); every Search must return exactly the top-k of all items (bitwise score sequence) or an error, the SearchPartitions RPCs seen by the interceptors must cover every partition exactly once, a consulted node that fails / is down / answers after the deadline must make the call fail, and 2 x 720 concurrent searches (GOMAXPROCS 2 and 16) exercise the collector/closer interleaving.",
+    "level_note": "Completion orders are produced by injected delays and concurrency, not enumerated; exactness of a partition's own answer relies on the small-collection bound checked by C07.",
+    "shards": {"quick": 5, "thorough": 12},
+    "timeout": {"quick": 900, "thorough": 3400},
+    "rule": "case c = topology + seeded items; 40 sequential searches with per-node delays, 12 fault searches, 1440 stress searches, k in {1,5,n,n+3}; non-trivial = >=50 searches checked against the exact top-k; distinct = digest of (topology, items per partition)",
+    "assumptions": ["queries are unique in their first coordinate, which attributes intercepted RPCs to a search"],
+    "min": {"any": {"searches_checked": 2000}},
+}
